@@ -16,8 +16,9 @@ the spec finds nothing.  All verdicts come from TLC.
 Attribution: a NotShortest / ImpossibleButCompletionExists case gets the signature of defect D6 only if the
 DeviationGreedyTake search predicts the recorded outcome of that very case.
 """
+import os
 import random
-import re
+import shutil
 import signal
 
 from .. import common, tlc, tlaval
@@ -85,7 +86,7 @@ def call(req, texts, limit, priority=None, guard_s=20):
         return {"res": "timeout", "w": []}
     except Exception as e:  # noqa
         return {"res": "crash", "w": [], "what": common.exc_signature(e)}
-    if not isinstance(out, list) or not all(isinstance(x, str) for x in out):
+    if not isinstance(out, (list, tuple)) or not all(isinstance(x, str) for x in out):
         return {"res": "crash", "w": [], "what": "result is not a list of symbols: %r" % (out,)}
     return {"res": "seq", "w": list(out)}
 
@@ -176,7 +177,7 @@ def real_case(job):
 TRACE_KEYS = ("tid", "req", "pats", "limit", "res", "w", "short", "greedy")
 
 
-def judge(ctx, events, stats, chunk=30000):
+def judge(ctx, events, stats, chunk=12000):
     """all verdicts come from SeqCompletionTrace.tla"""
     from .. import trace
 
@@ -186,7 +187,13 @@ def judge(ctx, events, stats, chunk=30000):
     stats["timeouts"] += sum(1 for e in events if e["res"] == "timeout")
     ok = [e for e in events if e["res"] in ("seq", "impossible")]
     parts = [ok[i : i + chunk] for i in range(0, len(ok), chunk)]
-    results = common.pmap(_validate_part, parts, procs=min(6, max(1, len(parts))), chunksize=1) if len(parts) >= 8 else [_validate_part(p) for p in parts]
+    if len(parts) >= 3:
+        import multiprocessing
+
+        with multiprocessing.get_context("fork").Pool(min(4, len(parts))) as pool:
+            results = pool.map(_validate_part, parts, 1)
+    else:
+        results = [_validate_part(p) for p in parts]
     for part, (bad, summ) in zip(parts, results):
         ctx.tlc_runs.append(dict(summ, name="trace validation (SeqCompletionTrace: enumerated, random and real calls)"))
         ctx.coverage["states"] = ctx.coverage.get("states", 0) + summ["distinct_states"]
@@ -211,17 +218,24 @@ def judge(ctx, events, stats, chunk=30000):
             stats["alarms"] += 1
     stats["judged"] += len(ok)
     stats["returned"] += sum(1 for e in ok if e["res"] == "seq")
-    stats["nontrivial"] += sum(1 for e in ok if e["res"] == "seq" and len(e["w"]) > len(e["req"]))
+    stats["nontrivial"] += len(set(repr((e["req"], e["pats"], e["limit"], e.get("priority"))) for e in ok if e["res"] == "seq" and len(e["w"]) > len(e["req"])))
     stats["impossible"] += sum(1 for e in ok if e["res"] == "impossible")
     return ok
+
+
+_MAIN_PID = os.getpid()
 
 
 def _validate_part(part):
     from .. import trace
 
     recs = [{k: e[k] for k in TRACE_KEYS if k in e} for e in part]
-    bad, res = trace.validate("SeqCompletionTrace", recs)
-    return bad, res.summary()
+    try:
+        bad, res = trace.validate("SeqCompletionTrace", recs)
+        return bad, res.summary()
+    finally:
+        if os.getpid() != _MAIN_PID:  # pool worker: its scratch directory is not removed by atexit
+            shutil.rmtree(tlc.scratch_root(), ignore_errors=True)
 
 
 def _case(e):
@@ -304,7 +318,7 @@ def run(ctx):
     for label, evs in (("enum", enum_events), ("random", rand_events), ("real", real_events)):
         for e in evs:
             e["part"] = label
-    judged = judge(ctx, enum_events + rand_events + real_events, stats)
+    judged = judge(ctx, enum_events + rand_events + real_events, stats, chunk=ctx.pick(40000, 12000))
     if stats["returned"] == 0 or stats["nontrivial"] == 0 or stats["impossible"] == 0:
         raise RuntimeError("vacuous run: %r" % stats)
     sample = [e for e in judged if e["res"] == "seq" and len(e["w"]) > len(e["req"])][:: max(1, len(judged) // 400)][:200]
@@ -314,7 +328,7 @@ def run(ctx):
             "traces_validated_against_impl": stats["judged"],
             "evaluations": stats["judged"],
             "distinct_nontrivial": stats["nontrivial"],
-            "rule": "one evaluation = one real call of make_matching_sequence judged by SeqCompletionTrace.tla; non-trivial = the call returned a sequence with at least one inserted symbol",
+            "rule": "one evaluation = one real call of make_matching_sequence judged by SeqCompletionTrace.tla; distinct non-trivial = distinct (required list, pattern ASTs, limit, priorities) for which the call returned a sequence with at least one inserted symbol",
             "exhaustive": True,
             "enumerated_cases": len(enum_events),
             "cases_where_greedy_deviation_differs": dev_cases,
